@@ -449,3 +449,58 @@ func ZZ_C11_write_response() {
 	zz.Assert(zzC11CheckTarget(rw, ar.ResponseMode, rq, regs, qualifies), "success response is a redirect")
 	zz.Observe("status", rw.status)
 }
+
+// zzC11Literals: registered redirect URIs with features outside the structured alphabets - an escaped
+// path segment (kept by net/url in RawPath), escaped UTF-8, user info, an existing query, a private-use
+// scheme without authority.
+var zzC11Literals = []string{
+	"https://client.example/cb%2Fprod/oauth",
+	"https://client.example/tenants/a%2Fb/cb?keep=1",
+	"https://client.example/r%C3%BCckruf",
+	"https://user:pw@client.example/cb",
+	"com.example.app:/oauth2redirect",
+	"https://client.example/a%7Eb/cb",
+}
+
+// ZZ_C11_write_literals: for each of the literal registered URIs above (the request names it, or names none),
+// an error after validation and a success response are redirected to exactly that text - only the query
+// (query mode) or the fragment (fragment mode) is added, the form-post action is the text itself.
+func ZZ_C11_write_literals() {
+	reg := zzC11Literals[zz.Choice("literal", len(zzC11Literals))]
+	f := zzC11Fosite()
+	ctx := context.Background()
+	ar := NewAuthorizeRequest()
+	ar.Client = &DefaultClient{ID: "c", RedirectURIs: []string{reg}}
+	ar.State = zz.String("state", 10)
+	ar.Form = url.Values{"state": {ar.State}}
+	if zz.Choice("named", 2) == 1 {
+		ar.Form.Set("redirect_uri", reg)
+	}
+	ar.ResponseMode = zzC11Modes[zz.Choice("mode", len(zzC11Modes))]
+	zz.Assert(f.validateAuthorizeRedirectURI(nil, ar) == nil, "literal: a registered URI named as it is registered (or not named) is accepted")
+	rw := &zzRW{hdr: http.Header{}}
+	if zz.Choice("outcome", 2) == 1 {
+		f.WriteAuthorizeError(ctx, rw, ar, ErrInvalidScope)
+	} else {
+		resp := NewAuthorizeResponse()
+		resp.AddParameter("code", zz.StringEx("code", 6, zzAllBut(zzC11Unres)))
+		resp.AddParameter("state", ar.State)
+		f.WriteAuthorizeResponse(ctx, rw, ar, resp)
+	}
+	loc := rw.hdr.Get("Location")
+	action, _, posted := zz.FormPost(string(rw.body))
+	zz.Observe("location", loc)
+	base, _, _ := strings.Cut(reg, "?")
+	switch {
+	case posted:
+		zz.Assert(action == reg, "literal: the form-post action is the registered URI as registered")
+		zz.Assert(loc == "", "literal: form post carries no Location")
+	case ar.ResponseMode == ResponseModeFragment:
+		zz.Assert(strings.HasPrefix(loc, reg+"#"), "literal: fragment mode redirects to the registered URI as registered, then '#'")
+	default:
+		zz.Assert(strings.HasPrefix(loc, base+"?"), "literal: query mode redirects to scheme, authority and path as registered, then '?'")
+		zz.Assert(!strings.Contains(loc, "#"), "literal: query mode adds no fragment")
+	}
+	zz.Cover("literal:form-post", posted)
+	zz.Cover("literal:location", !posted)
+}
